@@ -390,6 +390,11 @@ def hand(repo):
     A(text_mutant('c12-conjunction-extends-left-vars', 'rtamt/syntax/node/ltl/conjunction.py', "self.in_vars = child1.in_vars + child2.in_vars", "self.in_vars = child1.in_vars\n        self.in_vars += child2.in_vars"))
     # C02 / C09 / C05 memo of the update visitor
     A(text_mutant('c02-memo-truthiness', 'rtamt/semantics/abstract_online_interpreter.py', 'if node.name in self.visited:', 'if self.visited.get(node.name):', 0))
+    # round-10: the rewritten idioms, broken
+    A(text_mutant('c01-once-accumulate-min', OFF_D, '        sample_return = []\n        prev_out = -float("inf")\n        for i in sample:\n            out_sample = max(i, prev_out)\n            prev_out = out_sample\n            sample_return.append(out_sample)\n        return sample_return\n', "        import itertools\n        return list(itertools.accumulate(sample, min))\n"))
+    A(text_mutant('c18-and-index-loop-max', OFF_D, "        sample_return = list(map(min, zip(sample_left, sample_right)))\n", "        sample_return = []\n        for i in range(min(len(sample_left), len(sample_right))):\n            sample_return.append(max(sample_left[i], sample_right[i]))\n"))
+    A(text_mutant('c01-once-ifexp-swapped-arms', OFF_D, '            out_sample = max(i, prev_out)\n            prev_out = out_sample\n            sample_return.append(out_sample)\n        return sample_return\n\n\n    def visitHistorically', '            out_sample = prev_out if i > prev_out else i\n            prev_out = out_sample\n            sample_return.append(out_sample)\n        return sample_return\n\n\n    def visitHistorically'))
+    out += rewrites()[1]
     return out
 
 
@@ -580,8 +585,30 @@ def twins(repo):
         (OFF_D, E.replace("class StlDiscreteTimeOfflineAstVisitor(StlAstVisitor):\n", "def suffix_fold(fn, sample):\n    out = []\n    for val in reversed(sample):\n        out.append(fn(val, out[-1]) if out else val)\n    out.reverse()\n    return out\n\n\nclass StlDiscreteTimeOfflineAstVisitor(StlAstVisitor):\n")),
         (OFF_D, E.replace("        if sample_len <= end:\n            sample = sample + [float('inf')] * (end - sample_len + 1)\n",
                           "        tail = sample[begin:]\n        if end - begin >= len(tail) - 1:\n            return (suffix_fold(min, tail) + [float('inf')] * begin)[0:sample_len]\n        if sample_len <= end:\n            sample = sample + [float('inf')] * (end - sample_len + 1)\n"))]})
+    # round-10 twins: the same handlers written with other idioms
+    A(text_twin('twin-offline-abs-comprehension', OFF_D, "        sample_return = []\n        for i in sample:\n            out_sample = abs(i)\n            sample_return.append(out_sample)\n        return sample_return\n", "        return [abs(i) for i in sample]\n"))
+    A(text_twin('twin-offline-once-accumulate', OFF_D, '        sample_return = []\n        prev_out = -float("inf")\n        for i in sample:\n            out_sample = max(i, prev_out)\n            prev_out = out_sample\n            sample_return.append(out_sample)\n        return sample_return\n', "        import itertools\n        return list(itertools.accumulate(sample, max))\n"))
+    A(text_twin('twin-offline-and-index-loop', OFF_D, "        sample_return = list(map(min, zip(sample_left, sample_right)))\n", "        sample_return = []\n        for i in range(min(len(sample_left), len(sample_right))):\n            sample_return.append(min(sample_left[i], sample_right[i]))\n"))
+    A(text_twin('twin-offline-once-ifexp', OFF_D, '            out_sample = max(i, prev_out)\n            prev_out = out_sample\n            sample_return.append(out_sample)\n        return sample_return\n\n\n    def visitHistorically', '            out_sample = i if i > prev_out else prev_out\n            prev_out = out_sample\n            sample_return.append(out_sample)\n        return sample_return\n\n\n    def visitHistorically'))
     A({'id': 'twin-reformat-discrete-interpreter', 'kind': 'twin', 'props': list(ALL), 'edits': [('rtamt/semantics/discrete_time_interpreter.py', _reformat)]})
+    out += rewrites()[0]
     return out
+
+
+def rewrites():
+    """sa/selftest/rewrites/*.py: VARIANTS = {name: [(file, old, new), ...]} -- the same handler written with another idiom (twins), and, named
+    'M-...', the same idiom written wrongly (mutants).  Also the input format of tools/eq_probe.py."""
+    tw, mu = [], []
+    for p in sorted(glob.glob(os.path.join(VERIF, 'sa', 'selftest', 'rewrites', '*.py'))):
+        ns = {}
+        exec(open(p).read(), ns)
+        for name, edits in ns['VARIANTS'].items():
+            ed = [(rel, E.replace(old, new, 1)) for rel, old, new in edits]
+            if name.startswith('M-'):
+                mu.append({'id': 'rw-%s' % name[2:], 'kind': 'mutant', 'edits': ed})
+            else:
+                tw.append({'id': 'twin-rw-%s' % name, 'kind': 'twin', 'edits': ed, 'props': list(ALL)})
+    return tw, mu
 
 
 def _reformat(src):
